@@ -20,6 +20,7 @@ func init() {
 		ruleK5(c, "C15.K5")
 		ruleK6(c, "C15.K6")
 		ruleK7(c, "C15.K7")
+		ruleNlinkWriters(c, "C15.K8")
 	}
 }
 
@@ -1040,4 +1041,35 @@ func resultOf(v ssa.Value) ssa.Value {
 		v = ret.Results[idx]
 	}
 	return stripConv(v)
+}
+
+// ruleNlinkWriters: "the whole data region can be freed again" needs every
+// object to die when its last name goes: a link count that some other code
+// raises keeps the object - and its blocks - for ever.  The writers of Nlink
+// are an inventory (the first clause of C04.S3; the balance of the directory
+// adjustments stays with C04.S3).
+func ruleNlinkWriters(c *Ctx, id string) {
+	V, P, R := c.V, c.P, c.R
+	R.Rule(id, "link counts have fixed writers: Inode.Nlink is stored only by InitInode, DecLink, Decode and the parent adjustments of doCreate/doRemove/RENAME", 5)
+	doCreate := c.fn(id, "nfs.(*Nfs).doCreate")
+	doRemove := c.fn(id, "nfs.(*Nfs).doRemove")
+	ren := c.fn(id, "nfs.(*Nfs).NFSPROC3_RENAME")
+	if doCreate == nil || doRemove == nil || ren == nil {
+		return
+	}
+	for _, fn := range P.RepoFuncs("nfs", "inode", "dir", "fstxn", "shrinker", "alloctxn", "cache") {
+		for _, w := range FieldWrites(fn) {
+			if w.Type != V.Inode || w.Field != "Nlink" {
+				continue
+			}
+			o := ownerOf(fn)
+			isW := func(f *ssa.Function) bool {
+				return f == V.InitInode || f == V.DecLink || f == V.Decode || f == doCreate || f == doRemove || f == ren
+			}
+			// the writer itself, the function its closure belongs to, or the one caller of a private helper
+			allowed := isW(fn) || isW(o) || (fn.Parent() != nil && isW(fn.Parent()))
+			R.Analysed[FuncName(o)] = true
+			R.Check(allowed, id, FuncName(fn)+"|writes Nlink", P.Pos(w.Instr.Pos()), "Nlink is written only by InitInode (=1), DecLink (-1), Decode and the directory-parent adjustments of doCreate/doRemove/RENAME", "known writer", "a new writer of the link count: an object whose count is raised here is not freed when its last name is removed - its inode and blocks can never be allocated again")
+		}
+	}
 }
